@@ -28,6 +28,7 @@ import JubakoModel.Generated.FuncsView
 import JubakoModel.Generated.FuncsCheck
 import JubakoModel.Generated.FuncsLookup
 import JubakoModel.Generated.FuncsStats
+import JubakoModel.Generated.FuncsEntry
 
 open Jubako
 
@@ -48,6 +49,20 @@ def processColumnD (p : Generated.SrcSchemaProp) : List Generated.SrcValue → O
   | [] => some p
   | v :: vs => (Generated.schemaPropertyProcess p v).bind (fun p' => processColumnD p' vs)
 
+/-- copy of `entryValueOf` of Lemmas/FuncsEntry.lean -/
+def entryValueOfD (stores : List VStore) (p : RawProp) (v : Val) : Generated.SrcEntryValue :=
+  match p.kind with
+  | .uint _ _ => .unsigned (uintOf v)
+  | .sint _ _ => .signed (sintOf v)
+  | .content _ _ _ => .content (packOf v, cidOf v)
+  | .array lenSize fixed dep _ =>
+    let a := arrayOf v
+    let vs := stores.getD ((dep.map (·.2)).getD 0) ⟨false, []⟩
+    match lenSize with
+    | none => .indirectArray (vs.idOf a)
+    | some _ => .array (a.length, a.take fixed, vs.idOf (a.drop fixed))
+  | _ => .unsigned 0
+
 def grid : List Nat :=
   [0, 1, 2, 3, 4, 37, 38, 39, 127, 128, 255, 256, 257, 4094, 4095, 4096, 65535, 65536, 65537, 16777215, 16777216,
    4194303, 4194304, 4194305, 4294967295, 4294967296, 281474976710655, 281474976710656,
@@ -65,6 +80,8 @@ def cmp1 {α β} [ToString α] [ToString β] [BEq β] (name : String) (inputs : 
 def ordOf (n : Nat) : Ordering := if n % 3 = 0 then .lt else if n % 3 = 1 then .eq else .gt
 
 instance : ToString RawProp := ⟨fun p => reprStr p⟩
+
+instance : ToString Val := ⟨fun p => reprStr p⟩
 
 instance : ToString (Option Generated.SrcProperty) := ⟨fun p => reprStr p⟩
 
@@ -192,3 +209,22 @@ def main : IO Unit := do
     (fun x => (processColumnD (.array (.auto 0) x.1 0 [97]) (x.2.map (fun (n : Nat) => Generated.SrcValue.array (n : Int)))).map
       (Generated.schemaPropertyFinalize (fun s => (st.getD s ⟨false, []⟩).keySize)))
     (fun x => (finalizeProp st ⟨[97], .array x.1 0⟩ (x.2.map (fun n => Val.arr (List.replicate n 7)))).toSrcD)
+  -- the entry serialiser: size of a property, variant padding, bytes of one property of one entry
+  cmp1 "layoutPropertySize" (props.map (fun p => (reprStr p, p)))
+    (fun x => x.2.toSrcD.map Generated.layoutPropertySize) (fun x => some x.2.size)
+  let fts : List (Nat × Nat) := pairs [0, 1, 5, 16, 17] [0, 1, 15, 16, 17, 31, 32, 33, 48, 100, 255, 300]
+  cmp1 "fillToSize" (fts.filter (fun x => x.1 ≤ x.2)) (fun x => Generated.fillToSize x.1 x.2) (fun x => some ((paddingProps (x.2 - x.1)).map (·.size)))
+  let est : List VStore := [⟨false, [[3, 4], [5], [9, 9, 9]]⟩, ⟨true, [[1], [1, 2, 3, 4], [7, 7]]⟩]
+  let evals : List (RawProp × Val) :=
+    [(⟨1, [120], .uint 1 none⟩, .u 7), (⟨3, [120], .uint 3 none⟩, .u 16777215), (⟨8, [120], .uint 8 none⟩, .u 18446744073709551615),
+     (⟨0, [120], .uint 2 (some 513)⟩, .u 513), (⟨1, [121], .sint 1 none⟩, .s (-128)), (⟨2, [121], .sint 2 none⟩, .s (-129)),
+     (⟨8, [121], .sint 8 none⟩, .s (-9223372036854775808)), (⟨0, [121], .sint 1 (some (-2))⟩, .s (-2)),
+     (⟨2, [99], .content 1 1 none⟩, .content 3 200), (⟨5, [99], .content 2 3 none⟩, .content 300 70000), (⟨2, [99], .content 1 2 (some 4)⟩, .content 4 513),
+     (⟨4, [97], .array (some 1) 2 (some (1, 0)) none⟩, .arr [1, 2, 3, 4]), (⟨4, [97], .array (some 1) 2 (some (1, 0)) none⟩, .arr [1]),
+     (⟨4, [97], .array (some 1) 2 (some (1, 0)) none⟩, .arr []), (⟨6, [97], .array (some 2) 3 (some (1, 1)) none⟩, .arr [1, 2, 3, 7, 7]),
+     (⟨1, [97], .array none 0 (some (1, 1)) none⟩, .arr [1, 2, 3, 4]), (⟨3, [], .padding⟩, .u 0), (⟨16, [], .padding⟩, .u 0), (⟨1, [118], .variantId⟩, .u 0)]
+  cmp1 "entryPropertyWrites" evals
+    (fun (x : RawProp × Val) => match x.1.toSrcD with
+      | some k => (Generated.entryPropertyWrites k (entryValueOfD est x.1 x.2) (some 2)).map (fun ws => (ws.map (fun p => leBytes p.1 p.2)).flatten)
+      | none => none)
+    (fun (x : RawProp × Val) => some (serializeProp est x.1 x.2 (some 2)))
